@@ -18,7 +18,13 @@ import contextlib
 
 
 def stage(n):
+    if n == 3 and os.environ.get('UNIT_LATE'):
+        raise ValueError('natural failure inside the window')
     return n + 1
+
+
+def cleanup():
+    return 0
 
 
 def fail_early():
@@ -131,6 +137,24 @@ def ok_nested(early=False):
     stage(8)
 
 
+def ok_inline_cleanup_after_restore(early=False):
+    saved = dict((n, os.environ.get(n)) for n in ('V1', 'V2'))
+    try:
+        body(early)
+    finally:
+        _restore(saved)
+        cleanup()
+
+
+def bad_cleanup_before_restore(early=False):
+    saved = dict((n, os.environ.get(n)) for n in ('V1', 'V2'))
+    try:
+        body(early)
+    finally:
+        cleanup()
+        _restore(saved)
+
+
 def bad_straight_line(early=False):
     saved = dict((n, os.environ.get(n)) for n in ('V1', 'V2'))
     body(early)
@@ -174,16 +198,20 @@ def main(argv=None):
         names = [n for n in dir(mod) if n.startswith('ok_') or n.startswith('bad_')]
         for name in sorted(names):
             fn = getattr(mod, name)
-            for early in (False, True):
+            for early in (False, True, 'late'):
                 for state in ({'V1': 'a', 'V2': None}, {'V1': None, 'V2': 'b'}, {'V1': '', 'V2': 'new2'}):
-                    def reset():
+                    late = early == 'late'
+
+                    def reset(late=late):
                         os.environ.clear()
                         os.environ.update(base)
+                        if late:
+                            os.environ['UNIT_LATE'] = '1'
                         for k, v in state.items():
                             if v is not None:
                                 os.environ[k] = v
                     reset()
-                    m, outcome, before, after = inject.run_monitored(lambda: fn(early), ('V1', 'V2'))
+                    m, outcome, before, after = inject.run_monitored(lambda: fn(early is True), ('V1', 'V2'))
                     r, still_open = inject.admissibility(m)
                     win = min((mu['at'] for mu in m.mutations if mu.get('cleanup') is None), default=None)
                     rec_leak = inject.env_diff(before, after)
@@ -196,7 +224,7 @@ def main(argv=None):
                                 continue
                             reset()
                             f = inject.Fault(e['i'], exc, (e['caller'], e['line'], e['callee']), when=when)
-                            m2, o2, b2, a2 = inject.run_monitored(lambda: fn(early), ('V1', 'V2'), fault=f,
+                            m2, o2, b2, a2 = inject.run_monitored(lambda: fn(early is True), ('V1', 'V2'), fault=f,
                                                                   keep_events=False)
                             assert m2.diverged is None, (name, e)
                             if when == 'entry':
@@ -211,7 +239,7 @@ def main(argv=None):
                     good = name.startswith('ok_')
                     if good:
                         ok = flagged == 0 and not rec_leak
-                    elif early or (name == 'bad_only_v1' and state['V2'] == 'new2'):
+                    elif early is True or (name == 'bad_only_v1' and state['V2'] == 'new2'):
                         ok = True          # nothing was (visibly) perturbed: nothing can leak
                     else:
                         ok = flagged > 0 or bool(rec_leak)
